@@ -190,6 +190,14 @@ func init() {
 		for _, m := range []string{"aes-256-gcm", "aes-128-gcm", "chacha20-poly1305"} {
 			jobs = append(jobs, vx.Job{Scenario: "mux.transfer", Params: vx.P("conns", "2", "streams", "1", "writes", "5", "method", m), Bound: b(1, 2), Weight: 4})
 		}
+		// driver (b): proxy client -> RouteTCP -> MakeSession -> dispatcher -> proxy server, and back
+		jobs = append(jobs,
+			vx.Job{Scenario: "e2e.route", Params: vx.P("numconn", "2", "apps", "2", "sizes", "3,700"), Bound: b(0, 1), Weight: 6},
+			vx.Job{Scenario: "e2e.route", Params: vx.P("numconn", "1", "apps", "1", "sizes", "40000"), Bound: b(1, 2), Weight: 8},
+			vx.Job{Scenario: "e2e.route", Params: vx.P("numconn", "0", "apps", "2", "sizes", "5,5"), Bound: b(0, 1), Weight: 6},
+			vx.Job{Scenario: "e2e.route", Params: vx.P("numconn", "3", "apps", "3", "sizes", "1", "method", "plain", "closeby", "proxy"), Bound: b(0, 1), Weight: 6},
+			vx.Job{Scenario: "e2e.route", Params: vx.P("numconn", "0", "apps", "1", "sizes", "20000", "method", "chacha20-poly1305", "closeby", "proxy"), Bound: b(1, 2), Weight: 8},
+		)
 		for i := range jobs {
 			jobs[i].BudgetS = budget
 		}
